@@ -8,6 +8,8 @@
                 `regex` crate), with a witness string when it fails.
   FLOAT-TEXT / INT-TEXT  the text printed for finite floats (`{}` plus `.0` when there is no `.`) and for ints is inside
                 FLOAT_RE / INTEGER_RE as a whole token (DFA inclusion), and the float arm appends `.0`.
+  TUPLE-SINGLETON / PRINT-ORDER (MIR) a one-element tuple prints with its trailing comma; List, Tuple and Struct arms of
+                Value::display print in stored order (no sort / reverse), because equality compares them positionally.
   UNIT-MIX      (MIR dataflow, vlib/units.py) in the parser and the value printer no index into a sequence of chars derives
                 from a byte offset (str::find, len, Match::end) and no str slice bound derives from a count of characters:
                 the reader would otherwise decode a different string as soon as a multi-byte character precedes an escape.
@@ -51,7 +53,65 @@ def rx_escape(ch):
     return re.escape(ch).replace("\n", "\\n").replace("\t", "\\t")
 
 
+
+def print_shape(P, res):
+    """TUPLE-SINGLETON and PRINT-ORDER (MIR, values::Value::display):
+    a one-element tuple is printed with a trailing comma (`(1,)`; without it the reader sees a parenthesised expression), and
+    the arms of the ordered containers (List, Tuple, Struct fields) print their elements in stored order: `==` compares
+    struct fields positionally, so a re-ordered print reads back as a different value."""
+    from .. import dflow as D
+    f = P.funcs.get("values::Value::display")
+    if f is None:
+        raise M.MissingAnchor("values::Value::display not found")
+    arms = {}
+    for sw in D.enum_switches(f):
+        if D.short_ty(sw["ety"]) == "Value_":
+            for tgt, names in sw["by_target"].items():
+                for nm in names:
+                    arms[nm] = D.edge_dominated(f, sw["bb"], tgt)
+    for need in ("List", "Tuple", "Struct"):
+        if need not in arms:
+            raise M.MissingAnchor("Value::display has no arm for Value_::%s" % need)
+    group = [f] + [c for q, c in P.funcs.items() if q.startswith("values::Value::display::{closure")]
+    # TUPLE-SINGLETON
+    ok = False
+    for sw in D.bool_switches(f):
+        r = sw["root"]
+        if sw["bb"] not in arms["Tuple"] or r[0] != "rv" or r[3]["rv"]["k"] != "binop" or r[3]["rv"]["op"] not in ("Eq", "Ne"):
+            continue
+        consts = [M.op_const(r[3]["rv"][k_]) for k_ in ("a", "b")]
+        if not any(c is not None and c.get("v") == 1 for c in consts):
+            continue
+        edge = sw["true"] if r[3]["rv"]["op"] == "Eq" else sw["false"]
+        if edge is None:
+            continue
+        region = D.edge_dominated(f, sw["bb"], edge)
+        for bi, t in f.calls():
+            if bi in region and (M.callee_name(t) or "").endswith(("String::push", "String::push_str")) and len(t["args"]) == 2:
+                c = f.root_of(t["args"][1])
+                if c[0] == "const" and (c[1].get("v") == 44 or "," in str(c[1].get("s", ""))):
+                    ok = True
+    if ok:
+        res.ok("TUPLE-SINGLETON", "Value::display: a tuple of length 1 gets a trailing comma")
+    else:
+        res.bad("TUPLE-SINGLETON", "values::Value::display # Tuple # no trailing comma",
+                "the Tuple arm of Value::display does not add a comma when the tuple has exactly one element: `(1,)` prints as `(1)`, which reads back as the "
+                "bare element", f.loc())
+    # PRINT-ORDER
+    REORDER = ("::sort", "::sort_by", "::sort_by_key", "::sort_unstable", "::sort_unstable_by", "::sort_unstable_by_key", "::reverse",
+               "Iterator::rev", "::sorted", "::dedup", "::swap", "::rotate_left", "::rotate_right")
+    for v in ("List", "Tuple", "Struct"):
+        bad = [(bi, M.callee_name(t)) for bi, t in f.calls() if bi in arms[v] and (M.callee_name(t) or "").endswith(REORDER)]
+        if bad:
+            res.bad("PRINT-ORDER", "values::Value::display # %s # reorders" % v,
+                    "the %s arm of Value::display re-orders what it prints (%s): equality compares %s positionally, so the printed text reads back as a "
+                    "different value" % (v, bad[0][1].split("::")[-1], "struct fields" if v == "Struct" else "elements"), f.loc(f.blocks[bad[0][0]]["term"].get("span")))
+        else:
+            res.ok("PRINT-ORDER", "Value::display: the %s arm prints in stored order" % v)
+
+
 def run(ctx, res):
+    print_shape(ctx.P, res)
     from .. import units as U
     U.check(ctx.P, res, "UNIT-MIX", ("parser::", "values::"), 10)
     sh = ctx.shape
